@@ -281,6 +281,30 @@ def ob_append_tg(namesA, namesB, only, timeout):
     )
 
 
+def ob_append_tg_point_seam(only, timeout):
+    """a point tier present in both textgrids: A's points unchanged followed by B's shifted by
+    A's end - also when a point of A sits on A's end and a point of B on 0 (same time after
+    the shift: both are kept)"""
+    names = ["hia", "hib", "ta", "tb"]
+
+    def pre(hia, hib, ta, tb):
+        return within(0.0, hia, ta) & within(0.0, hib, tb) & within(0.0, 512.0, hia, hib)
+
+    def body(hia, hib, ta, tb):
+        A = Textgrid(0.0, hia)
+        A.addTier(PointTier("p", [Point(ta, "x")], 0.0, hia))
+        B = Textgrid(0.0, hib)
+        B.addTier(PointTier("p", [Point(tb, "y")], 0.0, hib))
+        r = A.appendTextgrid(B, only)
+        if list(r.tierNames) != ["p"]:
+            return "tier names"
+        if tuples(r.getTier("p").entries) != [(ta, "x"), (tb + hia, "y")]:
+            return "A's points unchanged followed by B's points shifted by A's end"
+        return True
+
+    return Ob("appendtg-point-seam-%s" % ("only" if only else "all"), F(*names), body, pre, fmode="real", timeout=timeout, setup=_setup, funcs=FUNCS[3:4], bounds="one point tier in both textgrids, one point each anywhere incl. A's end / B's start")
+
+
 def ob_append_tg_empty(only, timeout):
     """tiers without entries take part in appendTextgrid like any other tier"""
     names = ["hia", "hib", "s0", "e0"]
@@ -394,6 +418,7 @@ def obligations(tier):
         obs.append(ob_append_tg(["a"], ["a"], False, 120))
         for only in (True, False):
             obs.append(ob_append_tg_empty(only, 120))
+            obs.append(ob_append_tg_point_seam(only, 120))
         obs.append(ob_span_tests_ieee(120))
         obs.append(ob_tg_shift("silence", 180))
         obs.append(ob_tg_shift("error", 180))
@@ -414,6 +439,7 @@ def obligations(tier):
         obs.append(ob_span_tests_ieee(600))
         for only in (True, False):
             obs.append(ob_append_tg_empty(only, 600))
+            obs.append(ob_append_tg_point_seam(only, 600))
         for only in (True, False):
             for A, B in ((["a", "b"], ["a", "b"]), (["a", "b"], ["b", "a"]), (["a", "b"], ["b", "c"]), (["a", "b"], ["c", "d"]), (["a"], ["a"]), ([], ["a"]), (["a"], [])):
                 obs.append(ob_append_tg(A, B, only, 900))
